@@ -73,9 +73,13 @@ func (vc *FnVC) lvalPtr(lv *Lval) string {
 	if lv.idx == "" {
 		vc.enc.declFun(fn, []string{sInt}, sInt)
 		vc.enc.declFun("un"+fn, []string{sInt}, sInt)
+		vc.enc.declFun("fakind", []string{sInt}, sInt)
 		t := "(" + fn + " " + lv.ref + ")"
-		vc.emit(and(eq("(un"+fn+" "+t+")", lv.ref), "(< "+t+" 0)"))
-		vc.warn("escaping field address " + lv.comp)
+		if _, ok := vc.faComps[lv.comp]; !ok {
+			vc.faComps[lv.comp] = faInfo{sort: lv.sort, kind: len(vc.faComps) + 1}
+			vc.faOrder = append(vc.faOrder, lv.comp)
+		}
+		vc.emit(and(eq("(un"+fn+" "+t+")", lv.ref), "(< "+t+" 0)", eq("(fakind "+t+")", fmt.Sprint(vc.faComps[lv.comp].kind))))
 		return t
 	}
 	vc.enc.declFun(fn, []string{sInt, sInt}, sInt)
@@ -258,7 +262,7 @@ func (vc *FnVC) instr(ins ssa.Instruction, st *State) {
 		vc.safety("makeslice-len", and("(<= 0 "+ln+")", "(<= "+ln+" "+cp+")"))
 		r := vc.newRef(st, "arr")
 		vc.setComp(st, comp, sto(vc.cur(st, comp), r, "((as const "+arraySort(sInt, es)+") "+vc.enc.zero(sl.Elem())+")"))
-		vc.define(x, "(mk-slice "+r+" 0 "+ln+" "+cp+")")
+		vc.define(x, "(mk-slice "+r+" "+ln+" "+cp+")")
 	case *ssa.MapUpdate:
 		vc.doMapUpdate(x, st)
 	case *ssa.Lookup:
@@ -355,7 +359,7 @@ func (vc *FnVC) doIndexAddr(x *ssa.IndexAddr, st *State) {
 	case *types.Slice:
 		et = u.Elem()
 		s := vc.term(x.X).S
-		arr, off, ln = "(sl-arr "+s+")", "(sl-off "+s+")", "(sl-len "+s+")"
+		arr, off, ln = "(sl-arr "+s+")", "0", "(sl-len "+s+")"
 	case *types.Pointer:
 		at := u.Elem().Underlying().(*types.Array)
 		et = at.Elem()
@@ -378,6 +382,15 @@ func (vc *FnVC) doIndexAddr(x *ssa.IndexAddr, st *State) {
 		return
 	}
 	comp, sort := vc.elemComp(et)
+	if vc.useKeys {
+		if _, isSlice := x.X.Type().Underlying().(*types.Slice); isSlice {
+			a := sel(vc.cur(st, comp), arr)
+			ev := sel(a, pos)
+			// unfolding of the element set at the element read
+			vc.assume(eq(vc.keysOf(sort, a, "(+ "+pos+" 1)"), sto(vc.keysOf(sort, a, pos), ev, "true")))
+			vc.assume(sel(vc.keysOf(sort, a, ln), ev))
+		}
+	}
 	vc.vals[x] = Val{k: vLval, lv: &Lval{comp: comp, sort: sort, ref: arr, idx: pos, ty: et}}
 }
 
@@ -403,8 +416,22 @@ func (vc *FnVC) loadPtr(st *State, p string, t types.Type) string {
 	if _, ok := t.Underlying().(*types.Array); ok {
 		panic(unsupported("load of array value"))
 	}
-	comp, _ := vc.cellComp(t)
-	return sel(vc.cur(st, comp), p)
+	comp, sortS := vc.cellComp(t)
+	res := sel(vc.cur(st, comp), p)
+	// the pointer may be the address of a field taken earlier in this function
+	for i := len(vc.faOrder) - 1; i >= 0; i-- {
+		fc := vc.faOrder[i]
+		if vc.faComps[fc].sort != sortS {
+			continue
+		}
+		res = ite(vc.isFieldAddr(p, fc), sel(vc.cur(st, fc), "(unfa$"+fc+" "+p+")"), res)
+	}
+	return res
+}
+
+// isFieldAddr: p is the address of a field of component comp.
+func (vc *FnVC) isFieldAddr(p, comp string) string {
+	return and("(< "+p+" 0)", eq("(fakind "+p+")", fmt.Sprint(vc.faComps[comp].kind)), eq(p, "(fa$"+comp+" (unfa$"+comp+" "+p+"))"))
 }
 
 func (vc *FnVC) storePtr(st *State, p string, t types.Type, v string) {
@@ -426,9 +453,26 @@ func (vc *FnVC) storePtr(st *State, p string, t types.Type, v string) {
 	if _, ok := t.Underlying().(*types.Array); ok {
 		panic(unsupported("store of array value"))
 	}
-	comp, _ := vc.cellComp(t)
-	vc.frameCheck(st, comp, p)
-	vc.setComp(st, comp, sto(vc.cur(st, comp), p, v))
+	comp, sortS := vc.cellComp(t)
+	var anyFa []string
+	for _, fc := range vc.faOrder {
+		if vc.faComps[fc].sort != sortS {
+			continue
+		}
+		is := vc.isFieldAddr(p, fc)
+		anyFa = append(anyFa, is)
+		obj := "(unfa$" + fc + " " + p + ")"
+		vc.frameCheckGuarded(st, fc, obj, is)
+		vc.setComp(st, fc, ite(is, sto(vc.cur(st, fc), obj, v), vc.cur(st, fc)))
+	}
+	if len(anyFa) == 0 {
+		vc.frameCheck(st, comp, p)
+		vc.setComp(st, comp, sto(vc.cur(st, comp), p, v))
+		return
+	}
+	isField := or(anyFa...)
+	vc.frameCheckGuarded(st, comp, p, not(isField))
+	vc.setComp(st, comp, ite(isField, vc.cur(st, comp), sto(vc.cur(st, comp), p, v)))
 }
 
 func (vc *FnVC) doUnOp(x *ssa.UnOp, st *State) {
@@ -733,7 +777,7 @@ func (vc *FnVC) doConvert(x *ssa.Convert, st *State) {
 		comp, _ := vc.elemComp(types.Typ[types.Uint8])
 		r := vc.newRef(st, "arr")
 		ln := "(str.len " + v.S + ")"
-		name := vc.define(x, "(mk-slice "+r+" 0 "+ln+" "+ln+")")
+		name := vc.define(x, "(mk-slice "+r+" "+ln+" "+ln+")")
 		vc.assume(eq(vc.bytesOf(vc.cur(st, comp), name), v.S))
 	case tok && tb.Info()&types.IsString != 0 && isByteSlice(from):
 		comp, _ := vc.elemComp(types.Typ[types.Uint8])
@@ -761,8 +805,8 @@ func isByteSlice(t types.Type) bool {
 // bytesOf: the byte string held by a byte slice, as a function of the backing array
 // content and the slice header.
 func (vc *FnVC) bytesOf(elemArr, slice string) string {
-	vc.enc.declFun("bytes$of", []string{arraySort(sInt, sInt), sInt, sInt}, sString)
-	t := "(bytes$of (select " + elemArr + " (sl-arr " + slice + ")) (sl-off " + slice + ") (sl-len " + slice + "))"
+	vc.enc.declFun("bytes$of", []string{arraySort(sInt, sInt), sInt}, sString)
+	t := "(bytes$of (select " + elemArr + " (sl-arr " + slice + ")) (sl-len " + slice + "))"
 	key := "bytesfact:" + t
 	if !vc.enc.declared[key] {
 		vc.enc.declared[key] = true
@@ -938,7 +982,21 @@ func (vc *FnVC) doSlice(x *ssa.Slice, st *State) {
 			mx = vc.term(x.Max).S
 		}
 		vc.safety("slice-bounds("+describeValue(x.X)+")", and("(<= 0 "+lo+")", "(<= "+lo+" "+hi+")", "(<= "+hi+" "+mx+")", "(<= "+mx+" (sl-cap "+s+"))"))
-		vc.define(x, "(mk-slice (sl-arr "+s+") (+ (sl-off "+s+") "+lo+") (- "+hi+" "+lo+") (- "+mx+" "+lo+"))")
+		if lo == "0" {
+			vc.define(x, "(mk-slice (sl-arr "+s+") "+hi+" "+mx+")")
+		} else {
+			// a reslice with a non-zero low bound is modelled as a view: a fresh backing array
+			// holding the shifted content (assumption: writes through it are not observed
+			// through the original slice; listed in the evidence)
+			vc.enc.usedAssumptions["reslice s[lo:hi] with lo>0 is a copy: writes through it are not observed through s"] = true
+			comp, es := vc.elemComp(u.Elem())
+			r := vc.newRef(st, "view")
+			nc := vc.enc.freshConst("viewc", arraySort(sInt, es))
+			q := vc.enc.freshName("qi")
+			vc.assume("(forall ((" + q + " Int)) (! (= (select " + nc + " " + q + ") (select (select " + vc.cur(st, comp) + " (sl-arr " + s + ")) (+ " + q + " " + lo + "))) :pattern ((select " + nc + " " + q + "))))")
+			vc.setComp(st, comp, sto(vc.cur(st, comp), r, nc))
+			vc.define(x, "(mk-slice "+r+" (- "+hi+" "+lo+") (- "+mx+" "+lo+"))")
+		}
 	case *types.Pointer: // *array
 		at := u.Elem().Underlying().(*types.Array)
 		p := vc.term(x.X).S
@@ -951,7 +1009,10 @@ func (vc *FnVC) doSlice(x *ssa.Slice, st *State) {
 			hi = vc.term(x.High).S
 		}
 		vc.safety("slice-bounds("+describeValue(x.X)+")", and("(<= 0 "+lo+")", "(<= "+lo+" "+hi+")", "(<= "+hi+" "+n+")"))
-		vc.define(x, "(mk-slice "+p+" "+lo+" (- "+hi+" "+lo+") (- "+n+" "+lo+"))")
+		if lo != "0" {
+			panic(unsupported("slice of array with non-zero low bound"))
+		}
+		vc.define(x, "(mk-slice "+p+" "+hi+" "+n+")")
 	default:
 		panic(unsupported("slice of " + x.X.Type().String()))
 	}
@@ -982,7 +1043,7 @@ func (vc *FnVC) doRange(x *ssa.Range, st *State) {
 	ks := vc.enc.sortOf(mt.Key())
 	c := vc.seenCompFor(x)
 	vc.setComp(st, c, "((as const "+arraySort(ks, sBool)+") false)")
-	vc.setTerm(x, vc.term(x.X).S) // the iterator value is the map itself
+	vc.vals[x] = Val{k: vTerm, tv: TV{S: vc.term(x.X).S, Sort: sInt, Ty: x.X.Type()}} // the iterator value is the map itself
 }
 
 func (vc *FnVC) doNext(x *ssa.Next, st *State) {
